@@ -26,7 +26,9 @@ THEOREMS = [
     "C15.timestamp_is_clock",
     "C15.time_interval_diffs",
 ]
-RULE = ("timelines of 0..7 elements + terminal (completed/error/none; 12% non-conforming or with pre-subscription messages): bursts at one instant, "
+RULE = ("25% of the cases subscribe the SAME observable instance a second time (overlapping or later; absolute due times too) and compare with a fresh "
+        "single subscription; delay observables of delay_with_mapper include ones that signal inside subscribe (BehaviorSubject, finished Subject, "
+        "empty() on ImmediateScheduler); delay_subscription also subscribed without a scheduler argument; timelines of 0..7 elements + terminal (completed/error/none; 12% non-conforming or with pre-subscription messages): bursts at one instant, "
         "gaps of exactly d-1/d/d+1, an error while elements are pending / at the instant an element is due, delays 0, relative and absolute (datetime); "
         "hot and cold sources; TestScheduler and (one third) HistoricalScheduler; non-trivial = output differs from the source as seen")
 ASSUMPTIONS = ["virtual time in integer ticks (seconds on the datetime clock); the operator's timers are armed inside on_next, so a source message wins "
@@ -73,6 +75,14 @@ def cases(rng, tier):
                     if c["subdelay"] and c["subdelay"][0][1][0] != "E":
                         marks = [SUB + c["subdelay"][0][0]]
             msgs = T.gen_msgs(rng, d, marks)
+            if op != "delay_with_mapper":
+                t2 = T.gen_sub2(rng, msgs)
+                if t2 is not None:
+                    c["sub2"] = t2          # the same observable instance subscribed again (state must be per subscription)
+                    if op == "delay" and c["abs"]:
+                        c["at"] = t2 + rng.choice([0, 5, 30])      # absolute due time not before either subscription
+            if op == "delay_subscription" and c["sched"] == "test" and "sub2" not in c and rng.random() < 0.25:
+                c["inline"] = True          # subscribed without a scheduler argument: the mapper's empty() completes inline
             c["msgs"] = T.to_cold(msgs) if src == "cold" else msgs
             yield c
 
@@ -99,6 +109,8 @@ def build(case, sched, xs, hist):
     if op == "delay":
         return xs.pipe(ops.delay(when()))
     if op == "delay_subscription":
+        if case.get("inline"):
+            return xs.pipe(ops.delay_subscription(when(), scheduler=sched))
         return xs.pipe(ops.delay_subscription(when()))
     if op == "delay_with_mapper":
         import reactivex
@@ -114,7 +126,7 @@ def build(case, sched, xs, hist):
 def impl(case):
     if case["sched"] == "hist":
         return T.run_hist(case, lambda s, xs: build(case, s, xs, True))
-    return T.run_test(case, lambda s, xs: build(case, s, xs, False))
+    return T.run_test(case, lambda s, xs: build(case, s, xs, False), no_sched=bool(case.get("inline")))
 
 
 def canon_impl(case, io):
@@ -126,28 +138,39 @@ def canon_model(case, resp):
 
 
 # ------------------------------------------------------------------------------------------- oracle (property text)
-def sub_time(case):
-    return max(case["at"], SUB) if case["abs"] else SUB + case["at"]
+def sub_time(case, sub):
+    return max(case["at"], sub) if case["abs"] else sub + case["at"]
 
 
 def oracle(case, io):
     if "raised" in io:
         return f"operator raised {io['raised']}"
-    out = io["out"]
+    v = oracle_one(case, io["out"], [s[0:1] for s in io["subs"]], SUB)
+    if v is None and "out2" in io:
+        v = oracle_one(case, io["out2"], [s[1:2] for s in io["subs"]], case["sub2"])
+        if v is not None:
+            v = f"second subscription at {case['sub2']}: " + v
+        else:
+            v = T.second_sub_oracle(case, io)
+    return v
+
+
+def oracle_one(case, out, subs, sub):
+    """the property text for ONE subscription made at `sub`"""
     op = case["op"]
-    src = T.seen(case)
+    src = T.seen(case, sub=sub)
     if op == "timestamp":
         exp = [[t, ["N", {"t": [n[1], t]}] if n[0] == "N" else n] for t, n in src]      # the clock reading at delivery
         return None if fw.key(exp) == fw.key(out) else f"timestamp: expected {exp} got {out}"
     if op == "time_interval":
-        exp, last = [], SUB
+        exp, last = [], sub
         for t, n in src:
             exp.append([t, ["N", {"t": [n[1], t - last]}] if n[0] == "N" else n])        # since previous element / subscription
             if n[0] == "N":
                 last = t
         return None if fw.key(exp) == fw.key(out) else f"time_interval: expected {exp} got {out}"
     if op == "delay":
-        d = case["at"] - SUB if case["abs"] else case["at"]
+        d = case["at"] - sub if case["abs"] else case["at"]
         exp = []
         for t, n in src:
             if n[0] == "E":
@@ -156,13 +179,13 @@ def oracle(case, io):
                 exp.append([t + d, n])                              # exactly d later, in order
         return None if fw.key(exp) == fw.key(out) else f"delay({d}): expected {exp} got {out}"
     if op == "delay_subscription":
-        s = sub_time(case)
-        subs = io["subs"][0]
-        if not subs or subs[0][0] != s:
-            return f"delay_subscription: source subscribed at {subs}, expected at {s}"
+        s = sub_time(case, sub)
+        sb = subs[0]
+        if not sb or sb[0][0] != s:
+            return f"delay_subscription: source subscribed at {sb}, expected at {s}"
         full = T.seen(case, sub=s)
         alt = full
-        if full and full[-1][1][0] == "E":                          # elements at the very instant of the error may go with it
+        if full and full[-1][1][0] == "E" and not case.get("inline"):   # elements at the very instant of the error may go with it
             alt = [m for m in full[:-1] if m[0] < full[-1][0]] + [full[-1]]
         if fw.key(out) not in (fw.key(full), fw.key(alt)):
             return f"delay_subscription: expected {full} (subscribed at {s}) got {out}"
@@ -174,8 +197,9 @@ def oracle(case, io):
 
 
 def expected_dwm(case):
-    """each element is delivered when its delay observable first emits or completes; completion after the source completed and
-    the last pending element was delivered; errors (source, mapper, delay observable, subscription delay) at once"""
+    """each element is delivered when its delay observable first emits or completes (at once if it does so inside subscribe);
+    completion after the source completed and the last waiting element was delivered; errors (source, mapper, delay observable,
+    subscription delay) at once"""
     start = SUB
     if case["subdelay"] is not None:
         sd = T.conform(case["subdelay"])
@@ -185,34 +209,28 @@ def expected_dwm(case):
             return [[SUB + sd[0][0], sd[0][1]]]
         start = SUB + sd[0][0]
     src = T.seen(case, sub=start)
-    # per element: the instant of the first signal of its delay observable
-    cands = []                       # (time, class, ordinal, what): class 0 = source-side event, 1 = delay-observable signal
-    k = 0
-    tc = None
-    for t, n in src:
-        if n[0] == "N":
-            if case.get("raise_at") == k:
-                cands.append((t, 0, k, ["E", "mapErr"]))
-                break
-            tl = T.conform(T.inner_of(case["inners"], k))
-            if tl:
-                first = tl[0]
-                cands.append((t + first[0], 1, k, n if first[1][0] != "E" else first[1]))
+    ev = T.merged_events([T.src_stream(src, case["inners"])] + T.elem_streams(src, case["inners"]))
+    out, waiting, k, at_end = [], {}, 0, False
+    for t, e in ev:
+        if e[0] == "src":
+            n = e[1]
+            if n[0] == "N":
+                if case.get("raise_at") == k:
+                    return out + [[t, ["E", "mapErr"]]]
+                waiting[k] = n
+                k += 1
+            elif n[0] == "E":
+                return out + [[t, n]]
             else:
-                cands.append((None, 1, k, None))        # never delivered
-            k += 1
-        elif n[0] == "E":
-            cands.append((t, 0, k, n))
+                at_end = True
+        elif e[1] in waiting:
+            if e[2][0] == "E":
+                return out + [[t, e[2]]]
+            out.append([t, waiting.pop(e[1])])           # first signal: delivered, no longer waiting
         else:
-            tc = t
-    never = any(c[0] is None for c in cands)
-    out = []
-    for t, cls, _, what in sorted((c for c in cands if c[0] is not None), key=lambda c: (c[0], c[1], c[2])):
-        out.append([t, what])
-        if what[0] == "E":
-            return out
-    if tc is not None and not never and not any(c[3] == ["E", "mapErr"] for c in cands):
-        out.append([max([tc] + [o[0] for o in out]), ["C"]])
+            continue
+        if at_end and not waiting:
+            return out + [[t, ["C"]]]
     return out
 
 
@@ -223,6 +241,11 @@ def nontrivial(case, io):
 def bucket(case, io):
     yield from T.shape(case, io)
     yield f"{case['op']}:sched={case['sched']}"
+    yield f"{case['op']}:second-subscription={'sub2' in case}"
+    if case["op"] == "delay_with_mapper":
+        yield f"dwm:inline-delay={any(isinstance(x, dict) for x in case['inners'])}:raise_at={case['raise_at']}"
+    if case.get("inline"):
+        yield "delay_subscription:inline-empty"
     if case["op"] == "delay":
         s = T.seen(case)
         d = case["at"] - SUB if case["abs"] else case["at"]
@@ -235,6 +258,10 @@ def bucket(case, io):
 
 def shrink(case):
     yield from T.shrink_msgs(case)
+    if "sub2" in case and not (case["op"] == "delay" and case.get("abs")):
+        c = dict(case)
+        del c["sub2"]
+        yield c
     if case["sched"] == "hist":
         c = dict(case)
         c["sched"] = "test"
